@@ -4,6 +4,7 @@ package main
 
 import (
 	"fmt"
+	"os"
 	"sort"
 	"strconv"
 	"strings"
@@ -215,8 +216,14 @@ func c09KeyWire(t []string) (string, []string) {
 
 func c09FetchItemWire(it string) string {
 	switch it {
-	case "FLAGS", "UID", "FAST", "RFC822", "RFC822.HEADER", "RFC822.TEXT":
+	case "FLAGS", "UID", "FAST", "ALL", "FULL", "RFC822", "RFC822.HEADER", "RFC822.TEXT":
 		return it
+	case "BS":
+		return "BODYSTRUCTURE"
+	case "BD":
+		return "BODY"
+	case "ENV":
+		return "ENVELOPE"
 	case "SIZE":
 		return "RFC822.SIZE"
 	case "DATE":
@@ -377,8 +384,8 @@ func c09Wire(tok string) (conn int, text string) {
 			items = append(items, c09FetchItemWire(it))
 		}
 		s := uid(a[0]) + "FETCH " + c09SetWire(a[1]) + " "
-		if len(items) == 1 && items[0] == "FAST" {
-			return conn, s + "FAST"
+		if len(items) == 1 && (items[0] == "FAST" || items[0] == "ALL" || items[0] == "FULL") {
+			return conn, s + items[0]
 		}
 		return conn, s + "(" + strings.Join(items, " ") + ")"
 	}
@@ -431,13 +438,16 @@ type c09Val struct {
 }
 
 type c09Parser struct {
-	s    string
-	i    int
-	lits []string
+	s     string
+	i     int
+	lits  []string
+	depth int
+	bad   bool // a list or quoted string is not closed, or a ")" has no "("
 }
 
 func (p *c09Parser) vals() []c09Val {
 	var out []c09Val
+	mine := p.depth
 	for p.i < len(p.s) {
 		c := p.s[p.i]
 		switch {
@@ -445,10 +455,17 @@ func (p *c09Parser) vals() []c09Val {
 			p.i++
 		case c == ')':
 			p.i++
+			if mine == 0 {
+				p.bad = true
+				continue
+			}
 			return out
 		case c == '(':
 			p.i++
-			out = append(out, c09Val{kind: 'l', list: p.vals()})
+			p.depth++
+			l := p.vals()
+			p.depth--
+			out = append(out, c09Val{kind: 'l', list: l})
 		case c == '"':
 			p.i++
 			var sb strings.Builder
@@ -458,6 +475,9 @@ func (p *c09Parser) vals() []c09Val {
 				}
 				sb.WriteByte(p.s[p.i])
 				p.i++
+			}
+			if p.i >= len(p.s) {
+				p.bad = true
 			}
 			p.i++
 			out = append(out, c09Val{kind: 's', s: sb.String()})
@@ -482,6 +502,9 @@ func (p *c09Parser) vals() []c09Val {
 			}
 			out = append(out, c09Val{kind: 'a', s: p.s[st:p.i]})
 		}
+	}
+	if mine > 0 {
+		p.bad = true
 	}
 	return out
 }
@@ -619,6 +642,8 @@ func c09FetchItem(seq string, v c09Val) string {
 			}
 		case name == "RFC822" || name == "RFC822.HEADER" || name == "RFC822.TEXT":
 			atts = append(atts, "r"+name+"="+hx([]byte(val.s)))
+		case name == "ENVELOPE" || name == "BODYSTRUCTURE" || name == "BODY":
+			// derived by go-message: outside the reference model (parsed above for completeness only)
 		case strings.HasPrefix(name, "BODY["):
 			atts = append(atts, "b"+c09Section(name)+"="+hx([]byte(val.s)))
 		default:
@@ -695,6 +720,9 @@ func c09Untagged(l c09Line) string {
 		return unknown
 	}
 	v := p.vals()
+	if p.bad {
+		return "!" + hx([]byte(l.text)) // an incomplete response line
+	}
 	if len(v) < 2 || v[0].s != "*" {
 		return unknown
 	}
@@ -787,6 +815,16 @@ func c09Exec(env *c09Env, tok string) string {
 	for {
 		l, err := c09ReadLine(rc)
 		if err != nil {
+			if os.Getenv("C09_DEBUG") != "" {
+				env.mu.Lock()
+				for _, lg := range env.logs {
+					if len(lg) > 700 {
+						lg = lg[:700]
+					}
+					fmt.Fprintln(os.Stderr, "server log:", lg)
+				}
+				env.mu.Unlock()
+			}
 			return "PANIC"
 		}
 		if strings.HasPrefix(l.text, tag+" ") {
@@ -1002,11 +1040,43 @@ func (g *c09Gen) genAppend(conn int, name string) {
 		hdrs = append(hdrs, hxs("Date")+":"+hxs(t.Format("Mon, 02 Jan 2006 15:04:05 -0700")))
 		sentDay = fmtTime(time.Date(t.Year(), t.Month(), t.Day(), 0, 0, 0, 0, time.UTC))
 	}
+	// headers only the envelope / body structure look at (outside the model, exercised for crashes)
+	if g.r.chance(1, 5) {
+		hdrs = append(hdrs, hxs("Message-Id")+":"+hxs(pick(g.r, []string{"<m1@example.org>", "not an id", "<>"})))
+	}
+	if g.r.chance(1, 6) {
+		hdrs = append(hdrs, hxs("In-Reply-To")+":"+hxs(pick(g.r, []string{"<m0@example.org> <m9@example.org>", "garbage"})))
+	}
+	if g.r.chance(1, 6) {
+		hdrs = append(hdrs, hxs(pick(g.r, []string{"Cc", "Bcc", "Sender", "Reply-To"}))+":"+hxs(pick(g.r, []string{"Carol <carol@example.org>, dave@example.org", "undisclosed-recipients:;", "broken <", "=?utf-8?q?J=C3=BCrgen?= <j@example.org>"})))
+	}
+	body := pick(g.r, []string{"Hello World", "lorem ipsum", "hello", "", "x", "line one\r\nline two\r\n"})
+	if g.r.chance(1, 4) {
+		ct := pick(g.r, []string{"multipart/mixed; boundary=b1", "Multipart/Alternative; boundary=\"b1\"", "multipart/mixed; boundary=b1", "multipart/digest; boundary=b1",
+			"message/rfc822", "text/plain; charset=utf-8", "text/html", "application/octet-stream; name=x.bin", "multipart/mixed"})
+		hdrs = append(hdrs, hxs(pick(g.r, []string{"Content-Type", "content-type", "Content-Type"}))+":"+hxs(ct))
+		if g.r.chance(1, 3) {
+			hdrs = append(hdrs, hxs("Content-Transfer-Encoding")+":"+hxs(pick(g.r, []string{"7bit", "base64", "QUOTED-PRINTABLE"})))
+		}
+		if g.r.chance(1, 4) {
+			hdrs = append(hdrs, hxs("Content-Disposition")+":"+hxs(pick(g.r, []string{"inline", "attachment; filename=a.txt"})))
+		}
+		if g.r.chance(1, 5) {
+			hdrs = append(hdrs, hxs("Content-Language")+":"+hxs("en, de"))
+		}
+		body = pick(g.r, []string{
+			"--b1\r\nContent-Type: text/plain\r\n\r\npart one\r\n--b1\r\nX-Part: 2\r\n\r\npart two\r\n--b1--\r\n",
+			"preamble\r\n--b1\r\n\r\nonly part\r\n--b1--\r\nepilogue",
+			"--b1--\r\n",
+			"--b1\r\nContent-Type: text/plain\r\n\r\nno closing boundary\r\n",
+			"--b1\r\nContent-Type: multipart/mixed; boundary=b2\r\n\r\n--b2\r\n\r\ninner\r\n--b2--\r\n--b1\r\nContent-Type: message/rfc822\r\n\r\nSubject: inner\r\n\r\ninner body\r\n--b1--\r\n",
+			"Subject: embedded\r\nFrom: x@example.org\r\n\r\nembedded body",
+			"", "no boundary here", body})
+	}
 	hs := "_"
 	if len(hdrs) > 0 {
 		hs = strings.Join(hdrs, ",")
 	}
-	body := pick(g.r, []string{"Hello World", "lorem ipsum", "hello", "", "x", "line one\r\nline two\r\n"})
 	g.add(conn, "APPEND", hxs(name), flags, date, hs, hxs(body), fmt.Sprint(sentDay), sentErr)
 	if id, ok := g.names[c09Canon(name)]; ok {
 		g.count[id]++
@@ -1153,11 +1223,20 @@ func (g *c09Gen) partial() string {
 
 func (g *c09Gen) fetchItems() []string {
 	r := g.r
-	if r.chance(1, 12) {
-		return []string{"FAST"}
+	if r.chance(1, 10) {
+		return []string{pick(r, []string{"FAST", "ALL", "FULL"})}
 	}
 	var items []string
-	for i, n := 0, 1+r.intn(3); i < n; i++ {
+	n := 1 + r.intn(3)
+	if r.chance(1, 4) {
+		n = 3 + r.intn(4) // longer lists: repetitions and every order of BODY / BODYSTRUCTURE / ENVELOPE among the others
+	}
+	for i := 0; i < n; i++ {
+		if r.chance(1, 4) {
+			items = append(items, pick(r, []string{"BS", "BD", "ENV", "BS", "BD"}))
+			g.counts = append(g.counts, "fetch:unmodelled-item")
+			continue
+		}
 		switch r.intn(12) {
 		case 0:
 			items = append(items, "FLAGS")
@@ -1456,6 +1535,12 @@ var c09Corpus = []struct {
 	{1, []string{"c1 CREATE 53656e74", "c1 SELECT 494e424f58", "c1 COPY s 5-5 53656e74", "c1 MOVE u 7-7 53656e74", "c1 NOOP"}},
 	{1, []string{"c1 APPEND 494e424f58 _ _ _ 61 0 0", "c1 APPEND 494e424f58 _ _ _ 62 0 0", "c1 APPEND 494e424f58 _ _ _ 63 0 0",
 		"c1 SELECT 494e424f58", "c1 FETCH s 5-7,0-0 UID", "c1 FETCH u 5-0 UID"}},
+	// BODY / BODYSTRUCTURE / ENVELOPE in every order (oracle-only items; seeded change R3-a05-1)
+	{1, []string{"c1 APPEND 494e424f58 _ _ 5375626a656374:6869 68656c6c6f 0 0", "c1 SELECT 494e424f58", "c1 FETCH s 1-1 BS BD", "c1 FETCH s 1-1 BD BS",
+		"c1 FETCH u 1-0 BS FLAGS BD ENV BS", "c1 FETCH s 1-1 FULL", "c1 FETCH s 1-1 ALL", "c1 FETCH s 1-1 ENV BD B1/-/-/-/- BS SIZE"}},
+	// a multipart message without any part: BODY / BODYSTRUCTURE crashed the connection (F44)
+	{1, []string{"c1 APPEND 494e424f58 _ _ 436f6e74656e742d54797065:6d756c7469706172742f6d697865643b20626f756e646172793d6231 2d2d62312d2d0d0a 0 0",
+		"c1 SELECT 494e424f58", "c1 FETCH s 1-1 BD", "c1 FETCH s 1-1 BS B1/1/-/-/-", "c1 FETCH s 1-1 FULL"}},
 	// "*" under NOT / OR / nested groups must be resolved like at top level (seeded change R3-a08-1)
 	{1, []string{"c1 APPEND 494e424f58 _ _ _ 61 0 0", "c1 APPEND 494e424f58 _ _ _ 62 0 0", "c1 APPEND 494e424f58 _ _ _ 63 0 0", "c1 APPEND 494e424f58 _ _ _ 64 0 0",
 		"c1 SELECT 494e424f58", "c1 SEARCH s _ n q0-0", "c1 SEARCH s _ o q1-1 q0-0", "c1 SEARCH s _ n q10-0", "c1 SEARCH u _ n n u0-0",
